@@ -98,14 +98,41 @@ def alerts_model(chk):
     chk.cov["alerts_law_vs_code"] = {k: v for k, v in MC_DIFF.items()}
 
 
+def alerts_apalache(chk):
+    """window rule for unbounded history length: inductive invariant discharged by Apalache (optional; skipped if it stalls)"""
+    import subprocess
+    sc = vlib.scratch("c20apa")
+    try:
+        shutil.copy(os.path.join(vlib.SPEC, "AlertsWindowInd.tla"), sc)
+        res = {}
+        for name, args in (("base", ["--init=Init", "--length=0"]), ("step", ["--init=IndInit", "--length=1"])):
+            t0 = time.time()
+            try:
+                p = subprocess.run(["apalache-mc", "check", "--cinit=ConstInit", "--inv=IndInv"] + args + ["AlertsWindowInd.tla"],
+                                   cwd=sc, stdout=subprocess.PIPE, stderr=subprocess.STDOUT, text=True, timeout=240)
+            except (subprocess.TimeoutExpired, OSError) as e:
+                chk.cov["apalache_window_rule"] = "skipped (%s)" % type(e).__name__
+                return
+            if "EXITCODE: OK" not in p.stdout:
+                if "NoError" not in p.stdout and ("violat" in p.stdout.lower() or "counterexample" in p.stdout.lower()):
+                    raise vlib.Infra("Apalache: inductive invariant of the window rule fails (%s) - model-level, not a code verdict\n%s" % (
+                        name, p.stdout[-1500:]))
+                chk.cov["apalache_window_rule"] = "skipped (apalache error in %s)" % name
+                return
+            res[name] = round(time.time() - t0, 1)
+        chk.cov["apalache_window_rule"] = {"result": "IndInv inductive for N in 1..4, unbounded history length", "wall_s": res}
+    finally:
+        vlib.rmtree(sc)
+
+
 def alerts_behaviours(chk):
     quick = chk.tier == "quick"
     plan = []   # (cfg, sample size or None)
     for n in (1, 2, 3):
         plan.append(("Gen_Alerts_n%d_c0" % n, None))                       # all condition sequences of length 7
-        plan.append(("Gen_Alerts_n%d_c2" % n if quick else "Gen_Alerts_n%d_c2_deep" % n, 500 if quick else 9000))
+        plan.append(("Gen_Alerts_n%d_c2" % n if quick else "Gen_Alerts_n%d_c2_deep" % n, 300 if quick else 9000))
         plan.append(("Gen_Alerts_n%d_edit" % n, None if not quick else 120))
-        plan.append(("Gen_Alerts_n%d_sil" % n, 250 if quick else 5000))
+        plan.append(("Gen_Alerts_n%d_sil" % n, 200 if quick else 5000))
     plan.append(("Gen_Alerts_n2_edit2", 200 if quick else 4000))
     plan.append(("Gen_Alerts_n3_edit2", 150 if quick else None))
     gens = vlib.pmap(lambda p: vlib.tlc_generate("Gen_Alerts", p[0] + ".cfg", timeout=1200), plan, workers=4)
@@ -180,6 +207,8 @@ def classify_alert(trace, bad):
 
 def alerts_part(chk):
     alerts_model(chk)
+    if chk.tier != "quick" or os.environ.get("VERIF_C20_APALACHE"):
+        alerts_apalache(chk)
     behs = alerts_behaviours(chk)
     for i, b in enumerate(behs):
         b["id"] = i
@@ -232,8 +261,9 @@ def alerts_part(chk):
                                                       sorted(bad["adm"]), bad["state"], bad["sent"], bad["step"],
                                                       [s["a"] + (":" + ("T" if s["c"] else "F") if s["a"] == "eval" else "") for s in b["steps"]]))
             FIND.add(key, what, rep)
-        elif exact:
-            # transcription drift: real code vs Alerts.tla (not a verdict)
+        elif exact and not any(s["a"] == "edit" for s in b["steps"]):
+            # transcription drift: real code vs Alerts.tla (not a verdict).  Histories with a config edit are left out: there the
+            # transcription is the pinned (deviating) behaviour and a repaired tree legitimately differs from it
             for ms, rs in zip(b["steps"], t["steps"]):
                 if ms["a"] == "eval" and (ms["state"] != rs["state"] or ms["sent"] != rs["sent"]):
                     drift += 1
@@ -285,7 +315,7 @@ def kv_val(kind, v):
     if v == 0:
         return None
     if kind == "lookup":
-        return "a,b\n%d,1\n" % v
+        return "a,b\n" + ("%d,1\n" % v) * (1 + (7 - v) % 4)   # contents of different lengths
     if kind in ("folder", "alias"):
         return ""
     return "v%d" % v
@@ -306,7 +336,8 @@ class KvRun:
         self.drift = 0
 
     def start(self):
-        self.dr = vlib.Driver(self.binary)
+        # cwd = the scratch directory: dashboards resolve "defaultDBs/..." relative to the working directory
+        self.dr = vlib.Driver(self.binary, cwd=self.dir)
         self.dr.ok("init", dir=self.dir + "/data/", wait_ms=0)
         self.dr.ok("kv_init", orgs=[ORG[t] for t in self.tenants])
 
@@ -468,7 +499,7 @@ class KvRun:
                                   "%s is legal in tenant %s but was rejected (%s %s): another tenant has an object named %r" % (
                                       desc, t, r["status"], r["body"][:160], tgt))
                     elif kind == "alias" and ORG[t] != 0 and st["op"] == "create":
-                        self.fail("create-rejected:nonzero-tenant", "adding alias %r for tenant org=%d is rejected (%s %s): "
+                        self.fail("nonzero-tenant:create-rejected", "adding alias %r for tenant org=%d is rejected (%s %s): "
                                   "the tenant's alias directory is never created" % (name, ORG[t], r["status"], r["body"][:120]))
                     else:
                         self.fail("legal-op-rejected:%s" % st["op"], "%s answered ok=%s (%s %s); admissible by the keyed-store law: ok in %s" % (
@@ -486,7 +517,7 @@ class KvRun:
                         self.fail("cross-tenant-name-collision:create-acked-not-written",
                                   "%s answered success but tenant %s does not list it: another tenant owns that name" % (desc, t))
                     elif kind == "alias" and st["op"] == "create" and ok and unchanged and ORG[t] != 0:
-                        self.fail("create-acked-not-written:nonzero-tenant", "adding alias %r for tenant org=%d is acknowledged (%s) but "
+                        self.fail("nonzero-tenant:create-acked-not-written", "adding alias %r for tenant org=%d is acknowledged (%s) but "
                                   "nothing is stored: the tenant's alias directory is never created" % (name, ORG[t], r["status"]))
                     else:
                         self.fail("state-mismatch:%s" % st["op"], "%s ok=%s: store answers %s, keyed-store law says %s" % (
@@ -550,7 +581,7 @@ def kv_part(chk, binary):
     quick = chk.tier == "quick"
     kv_model(chk)
     pool = kv_behaviours(chk)
-    per_kind = 110 if quick else 1300
+    per_kind = 90 if quick else 1300
     cases = []
     rnd = random.Random(chk.seed)
     for kind, (stem, namesets, _) in sorted(KINDS.items()):
